@@ -194,6 +194,21 @@ impl Compiler {
 
     /// Compiles the given AST into executable Bytecode
     pub fn compile_ast(&mut self, ast: &BlockStmt) -> Result<Bytecode, Error> {
+        let result = self.compile_program(ast);
+
+        // A program that failed to compile must not influence the next one:
+        // forget the code emitted so far and any function or loop we were in the middle of
+        if result.is_err() {
+            self.instructions.clear();
+            self.last_instruction = None;
+            self.loop_contexts.clear();
+            self.symbols.reset_to_global();
+        }
+
+        result
+    }
+
+    fn compile_program(&mut self, ast: &BlockStmt) -> Result<Bytecode, Error> {
         // Call compile_statement on each child node directly
         // We don't re-use compile_block_statement here because it exits the global scope
         for s in ast {
